@@ -212,6 +212,12 @@ func semis(s string) []string {
 	return strings.Split(s, ";")
 }
 
+var (
+	histMtx     sync.Mutex
+	runHist     = map[string]int{}
+	verdictHist = map[string]int{}
+)
+
 // ---- the scripted world around the real syncer ----
 
 type world struct {
@@ -367,7 +373,9 @@ func (w *world) ListSnapshotsSync(abci.RequestListSnapshots) (*abci.ResponseList
 func (w *world) LoadSnapshotChunkSync(abci.RequestLoadSnapshotChunk) (*abci.ResponseLoadSnapshotChunk, error) {
 	return &abci.ResponseLoadSnapshotChunk{}, nil
 }
-func (w *world) EchoSync(s string) (*abci.ResponseEcho, error) { return &abci.ResponseEcho{Message: s}, nil }
+func (w *world) EchoSync(s string) (*abci.ResponseEcho, error) {
+	return &abci.ResponseEcho{Message: s}, nil
+}
 func (w *world) QuerySync(abci.RequestQuery) (*abci.ResponseQuery, error) {
 	return &abci.ResponseQuery{}, nil
 }
@@ -492,6 +500,7 @@ func (w *world) run() string {
 	w.journal = nil
 	w.tie = false
 	w.retrying = false
+	w.slowWait = false
 	done := make(chan struct{})
 	var wg sync.WaitGroup
 	wg.Add(1)
@@ -517,6 +526,19 @@ func (w *world) run() string {
 			res = "failed:" + c
 		}
 	}
+	histMtx.Lock()
+	cls := strings.Fields(res)[0]
+	runHist[cls]++
+	for _, e := range w.journal {
+		if i := strings.IndexByte(e, ':'); i > 0 && (e[0] == 'A' || e[0] == 'O') {
+			p := strings.Split(e, ":")
+			verdictHist[p[0]+":"+p[len(p)-3+map[byte]int{'A': 0, 'O': 2}[e[0]]]]++
+		}
+	}
+	if w.slowWait {
+		runHist["waited-for-real-chunkTimeout"]++
+	}
+	histMtx.Unlock()
 	j := "-"
 	if len(w.journal) > 0 {
 		j = strings.Join(w.journal, " ")
